@@ -1565,11 +1565,17 @@ class Protocol(utils.EventEmitter):
             else:
                 header = bytes([first_header_byte])
 
-            # Send one packet
-            self.l2cap_channel.write(header + payload[:max_fragment_size])
+            # Send one packet (a single packet has a 2-byte header and carries the
+            # whole payload)
+            fragment_size = (
+                len(payload)
+                if packet_type == self.PacketType.SINGLE_PACKET
+                else max_fragment_size
+            )
+            self.l2cap_channel.write(header + payload[:fragment_size])
 
             # Prepare for the next packet
-            payload = payload[max_fragment_size:]
+            payload = payload[fragment_size:]
             if payload:
                 packet_type = (
                     self.PacketType.CONTINUE_PACKET
